@@ -33,6 +33,7 @@ func main() {
 	of := fs.Int("of", 1, "")
 	verif := fs.String("verif", "/verif", "verif directory")
 	file := fs.String("file", "", "replay file")
+	run := fs.Int("run", 0, "run index (one)")
 	fs.Parse(os.Args[2:])
 
 	seed := uint64(20260921)
@@ -84,6 +85,30 @@ func main() {
 		code := harness.Worker(p, *tier, seed, *idx, *of, w, *verif)
 		w.Flush()
 		os.Exit(code)
+	case "one":
+		p := harness.Lookup(*prop)
+		if p == nil {
+			os.Exit(2)
+		}
+		os.Exit(harness.One(p, *tier, seed, *run))
+	case "digest":
+		p := harness.Lookup(*prop)
+		if p == nil {
+			os.Exit(2)
+		}
+		os.Exit(harness.Digest(p, *tier, seed, *run))
+	case "selftest":
+		var ps []*harness.Property
+		for _, id := range harness.IDs() {
+			if *prop == "" || *prop == id {
+				ps = append(ps, harness.Lookup(id))
+			}
+		}
+		n := *run
+		if n <= 0 {
+			n = 8
+		}
+		os.Exit(harness.Selftest(ps, seed, n))
 	case "replay":
 		os.Exit(harness.Replay(*file))
 	default:
